@@ -105,7 +105,7 @@ def confirm(name):
         res["demo_output_tail"] = out[-600:]
         os.remove(demo_dst)
         import fcntl
-        with open("/tmp/conf/suite.lock", "w") as lk:  # the suite binds fixed ports: one run at a time
+        with open("/tmp/mut/suite.lock" if os.path.isdir("/tmp/mut") else "/tmp/conf/suite.lock", "a") as lk:  # the suite binds fixed ports: one run at a time
             fcntl.flock(lk, fcntl.LOCK_EX)
             rc, out = sh("go test -vet=off -count=1 -timeout 25m ./...", cwd=wt, env=GOENV, timeout=2400)
             if rc != 0 and "bind: address already in use" in out or "dial" in out and "metrics_server_test" in out:
